@@ -43,7 +43,10 @@ ANCHOR_FUNCS = {
 TIMEOUT = {'quick': 600, 'thorough': 3000}
 
 DELIMS = '"\'!#%(),:;[]{}'
-SHEETS = ['Sheet1', 'Data', 'My Sheet', "It's", 'Q1 2020', 'a_b']
+SHEETS = ['Sheet1', 'Data', 'My Sheet', "It's", 'Q1 2020', 'a_b',
+          # characters that are syntax OUTSIDE a quoted sheet name
+          'Plan (v2', 'x) y', '5" pipe', 'a,b', 'p&l', '(old) data', 'a+b',
+          'R=1', 'FY24-Q1', '{x}', '#REF', '100%', 'a;b', 'TRUE']
 FUNCS = ['SUM', 'IF', 'MAX', 'CONCAT', 'ROUND', 'MID', 'PI', 'AND', 'LEN',
          'VLOOKUP', 'COUNTIFS', '_xlfn.CONCAT']
 ALPHABET = ''.join(chr(c) for c in range(32, 127))
